@@ -141,3 +141,49 @@ def cache_point_rule(chk, repo: Repo, rule: str, classes) -> int:
                     continue
                 chk.ok(rule, inst, site(repo, s), "paired with the write of self.current_point in the same block")
     return n
+
+
+ROOT_METHODS = ("initialize", "reinitialize", "step", "tune", "set_state", "load_checkpoint", "warmup", "sample", "__init__")
+
+
+def point_writers_rule(chk, repo: Repo, rule: str, classes) -> int:
+    """Who may move the chain: `self.current_point` is written only by the transition, the (re)initialisation and the state restore - the methods reachable
+    by self-calls from initialize / reinitialize / step / tune / set_state / load_checkpoint / warmup / sample - because those are the places that keep the
+    cached evaluations (current_*_logd / current_*_grad) in step with it.  A property setter or other method that moves current_point on its own leaves the
+    caches at the previous point."""
+    from .props.common import site
+    n = 0
+    seen_fn = set()
+    for ci in classes:
+        # closure of self-method calls from the root methods, over the MRO
+        names, work = set(), list(ROOT_METHODS)
+        while work:
+            m = work.pop()
+            if m in names:
+                continue
+            names.add(m)
+            for c in ci.mro():
+                fn = c.methods.get(m)
+                if fn is None:
+                    continue
+                for x in ast.walk(fn):
+                    if isinstance(x, ast.Call) and isinstance(x.func, ast.Attribute):
+                        recv = x.func.value
+                        if (isinstance(recv, ast.Name) and recv.id == "self") or (isinstance(recv, ast.Call) and call_name(recv) == "super"):
+                            work.append(x.func.attr)
+        for c in ci.mro():
+            for kind, name, fn in c.all_functions():
+                if id(fn) in seen_fn:
+                    continue
+                writes = [s_ for s_ in ast.walk(fn) if isinstance(s_, (ast.Assign, ast.AugAssign)) and any(
+                    path_of(t) == POINT for T in (s_.targets if isinstance(s_, ast.Assign) else [s_.target]) for t in (T.elts if isinstance(T, (ast.Tuple, ast.List)) else [T]))]
+                if not writes:
+                    continue
+                seen_fn.add(id(fn))
+                n += 1
+                allowed = (kind not in ("setter", "getter") and name in names) or (kind == "setter" and name == "current_point")
+                label = f"{c.qual}.{'@' if kind in ('getter', 'setter') else ''}{name}{'=' if kind == 'setter' else ''}"
+                chk.add(rule, f"{label}/moves-current_point", allowed, site(repo, writes[0]), "current_point is written by the transition / (re)initialisation / state restore",
+                        f"`{unparse(writes[0])[:70]}` in {label} moves the chain outside the transition, the (re)initialisation and the state restore: the cached "
+                        f"log-density / gradient stay at the previous point, so the next acceptance ratio (or first half-kick) is computed from a stale energy", writes[0])
+    return n
